@@ -36,7 +36,7 @@ func vSequences(ops []VOp, depth int) [][]VOp {
 func init() {
 	engine.RegisterCheck("C04", func(r *engine.Run) {
 		r.Level = "fault_enumeration"
-		r.Rule = "CRASH: for every write history (all sequences up to the stated depth over the alphabet, on a store that already holds one committed batch) the process is really SIGKILLed immediately before every durable badger commit of the history (each one separately), at every hit of every named point in StoreEntities/ExecuteTransaction, and - for every asynchronous commit (Txn.CommitWith) the code issues - right after the acknowledgement with that commit not yet in the write-ahead log; three histories with a batch of 1101 entities and five with a transaction through a contextual store (as a javascript transform issues it; also right after a rejected batch) are included; the store is reopened in a new process and must equal the reference model after the acknowledged ops or after those plus the in-flight op, satisfy the cross-index invariants, and accept further writes with fresh positions and ids. distinct = distinct canonical recovered states"
+		r.Rule = "CRASH: for every write history (all sequences up to the stated depth over the alphabet, on a store that already holds one committed batch) the process is really SIGKILLed immediately before every durable badger commit of the history (each one separately), at every hit of every named point in StoreEntities/ExecuteTransaction, and - for every asynchronous commit (Txn.CommitWith) the code issues - right after the acknowledgement with that commit not yet in the write-ahead log; three histories with a batch of 1101 entities and five with a transaction through a contextual store (as a javascript transform issues it; also right after a rejected batch) are included, as are batches that re-send what a refused batch carried and histories with rename / delete / create of datasets between the writes; the store is reopened in a new process and must equal the reference model after the acknowledged ops or after those plus the in-flight op, satisfy the cross-index invariants, and accept further writes with fresh positions and ids. distinct = distinct canonical recovered states"
 		r.Assumptions = []string{"a badger commit is atomic with respect to process kill", "process-kill model: the OS and page cache survive (no power loss)", "the items counter of the meta-entity is outside this property"}
 		pool := model.Pool(0)
 		pi := func(n string) int { return model.PoolIndex(pool, n) }
@@ -68,6 +68,22 @@ func init() {
 			ctxBases = append(ctxBases, vToMap(CrashSpec{Datasets: vDS, IDs: vIDs, Pre: pre, Hist: h, Kind: "store"}))
 		}
 		engine.RunCrash(r, "c04-contextual-store", []string{"worker", "crash-store"}, ctxBases, 0)
+		// a batch whose identifiers were assigned by an earlier, refused batch (it assigns none itself)
+		retry := VOp{K: "batch", DS: "A", Ents: []VEnt{{"e4", pi("v1")}}}
+		var retryBases []map[string]interface{}
+		for _, h := range [][]VOp{{bad, retry}, {bad, retry, alpha[0]}, {bad, alpha[3], retry}} {
+			retryBases = append(retryBases, vToMap(CrashSpec{Datasets: vDS, IDs: vIDs, Pre: pre, Hist: h, Kind: "store"}))
+		}
+		engine.RunCrash(r, "c04-retry-after-refusal", []string{"worker", "crash-store"}, retryBases, 0)
+		// dataset management between writes: rename, delete, create (each is several commits); judged by the inspector
+		// of C07's crash part: the in-flight operation is observably either not done or done, everything written and
+		// acknowledged before is still there under the name the dataset has
+		ren := VOp{K: "rename", DS: "A", To: "C"}
+		var dsmBases []map[string]interface{}
+		for _, h := range [][]VOp{{ren}, {alpha[0], ren}, {ren, {K: "batch", DS: "C", Ents: []VEnt{{"e2", pi("v1")}}}}, {{K: "delete", DS: "B"}, alpha[0]}, {{K: "create", DS: "C"}, {K: "batch", DS: "C", Ents: []VEnt{{"e1", pi("v2")}}}}} {
+			dsmBases = append(dsmBases, vToMap(CrashSpec{Datasets: vDS, IDs: vIDs, Pre: pre, Hist: h, Kind: "dsm", Prop: "C04"}))
+		}
+		engine.RunCrash(r, "c04-dataset-management", []string{"worker", "crash-dsm"}, dsmBases, 0)
 		// large batches (more entities than any plausible internal chunk size of a thousand): still one atomic unit
 		big := VOp{K: "batch", DS: "A", Ents: []VEnt{{"e1", pi("v2")}}, N: 1100}
 		var bigBases []map[string]interface{}
